@@ -634,6 +634,13 @@ func TestSentinelsThroughControlPlane(t *testing.T) {
 // ---------------------------------------------------------------- derived keys against the executed programs
 
 func dhcpDiscover(chaddr []byte, hlen int, vlans [][2]uint16, opt82cid []byte) []byte {
+	return dhcpDiscoverOpts(chaddr, hlen, vlans, opt82cid, nil, nil)
+}
+
+// dhcpDiscoverOpts: pre = options placed between the message type and Option 82 (moves Option 82 to another
+// of the offsets the program inspects); subAfter = further Option 82 sub-options following the circuit-id
+// (remote-id etc., as real relays send them).
+func dhcpDiscoverOpts(chaddr []byte, hlen int, vlans [][2]uint16, opt82cid, pre, subAfter []byte) []byte {
 	bootp := make([]byte, 240)
 	bootp[0] = 1
 	bootp[1] = 1
@@ -642,8 +649,10 @@ func dhcpDiscover(chaddr []byte, hlen int, vlans [][2]uint16, opt82cid []byte) [
 	copy(bootp[28:44], chaddr)
 	binary.BigEndian.PutUint32(bootp[236:], 0x63825363)
 	opts := []byte{53, 1, 1}
+	opts = append(opts, pre...)
 	if opt82cid != nil {
 		sub := append([]byte{1, byte(len(opt82cid))}, opt82cid...)
+		sub = append(sub, subAfter...)
 		opts = append(opts, 82, byte(len(sub)))
 		opts = append(opts, sub...)
 	}
@@ -726,7 +735,32 @@ func TestDerivedKeys(t *testing.T) {
 		if i%5 == 0 {
 			cid[rng.IntN(cl)] = 0
 		}
-		frame = dhcpDiscover(ch, 6, nil, cid)
+		// Option 82 at each offset the program inspects (3, or 12..19 behind a client-id option), alone or
+		// followed by further sub-options (remote-id, …) as relays send them
+		var pre, subAfter []byte
+		pos := 3
+		if i%2 == 1 {
+			pos = 12 + rng.IntN(8)
+			pre = append([]byte{61, byte(pos - 5)}, make([]byte, pos-5)...)
+			for j := 2; j < len(pre); j++ {
+				pre[j] = byte(1 + rng.IntN(255))
+			}
+		}
+		if rng.IntN(2) == 0 {
+			for k := 1 + rng.IntN(2); k > 0; k-- {
+				l := 1 + rng.IntN(10)
+				so := []byte{[]byte{2, 9, 5, 6}[rng.IntN(4)], byte(l)}
+				for j := 0; j < l; j++ {
+					so = append(so, byte(1+rng.IntN(255)))
+				}
+				subAfter = append(subAfter, so...)
+			}
+		}
+		frame = dhcpDiscoverOpts(ch, 6, nil, cid, pre, subAfter)
+		run.Count(fmt.Sprintf("circuit_id_opt82_at_offset_%d", pos), 1)
+		if len(subAfter) > 0 {
+			run.Count("circuit_id_with_following_suboptions", 1)
+		}
 		res, err = nat_.Run("dhcp_fastpath_prog", frame, cplane.RunOpt{})
 		if err != nil {
 			run.Violation("bpf/dhcp_fastpath.c", "memory-safety", "sanitizer-or-guard-fault", err.Error(), fmt.Sprintf("%x", frame))
@@ -736,10 +770,17 @@ func TestDerivedKeys(t *testing.T) {
 			gk := bngebpf.MakeCircuitIDKey(cid)
 			run.Nontrivial(fmt.Sprintf("cidkey|%x", cid))
 			run.Count("circuit_id_keys_compared", 1)
+			run.Count(fmt.Sprintf("circuit_id_keys_compared_offset_%d", pos), 1)
 			if !bytes.Equal(ks[0], gk[:]) {
 				cls := "short-id"
 				if cl > 32 {
 					cls = "id-longer-than-32"
+				}
+				if pos != 3 {
+					cls += "_option82-behind-other-options"
+				}
+				if len(subAfter) > 0 {
+					cls += "_followed-by-suboptions"
 				}
 				run.Violation("ebpf.MakeCircuitIDKey", "derived-key-circuit-id", cls, fmt.Sprintf("circuit-id %x (len %d): program looks up %x, MakeCircuitIDKey gives %x", cid, cl, ks[0], gk[:]), fmt.Sprintf("%x", frame))
 			}
